@@ -160,6 +160,12 @@ def handle : List String → Option String
     if supportedU q && plan != specTs then some s!"diff {showTable plan} {showTable specTs} theorem-rhs-differs:{shapeName q} {stageCount c q}"
     else if plan == spec then some s!"ok {plan.length} {cls}"
     else some s!"diff {showTable plan} {showTable spec} {cls}"
+  | "c08rows" :: args => do
+    -- the rows the generated statement returns (reference interpreter `Sql.evalSelA` on the plan whose text is the real planner's)
+    let (c, rest) ← mctx? args
+    let (q, rest') ← query? rest
+    let d ← db? rest'
+    some (showTable ((evalSelA oracles (d.toDbM c) (planMetric c q)).map normRow))
   | "c08post" :: fromNs :: toNs :: step :: d :: es :: [] => do
     let es ← list? mentry? es
     let (f, t, st, dd) := (← fromNs.toInt?, ← toNs.toInt?, ← step.toInt?, ← d.toInt?)
